@@ -40,12 +40,15 @@ def run_cases(binary, cases, tag):
 def name(c):
     return "v%d/honest-%s/%s/%s/cred-%s/dev-%s%s%s" % (
         c["ver"], c["honest"], c["auth"], ("verify" if c["verifyChain"] else "skipverify") if c["honest"] == "c" else "policy%d" % c["policy"],
-        c["cred"], c["dev"], "/" + c["suite"] if c.get("suite") else "", "/rsa" if c.get("keyType") else "")
+        c["cred"], c["dev"], "/" + c["suite"] if c.get("suite") else "", "/rsa" if c.get("keyType") else "") + ("/name-" + c["nameKind"] if c.get("nameKind") else "")
 
 
 def facts(c):
-    return {"kind": "unauthenticated-peer-accepted", "ver": c["ver"], "honest": c["honest"], "cred": c["cred"], "dev": c["dev"],
-            "policy": c["policy"], "verifyChain": c["verifyChain"], "auth": c["auth"], "case": c}
+    f = {"kind": "unauthenticated-peer-accepted", "ver": c["ver"], "honest": c["honest"], "cred": c["cred"], "dev": c["dev"],
+         "policy": c["policy"], "verifyChain": c["verifyChain"], "auth": c["auth"], "case": c}
+    if c.get("nameKind"):
+        f["nameKind"] = c["nameKind"]
+    return f
 
 
 def run(chk):
@@ -91,6 +94,13 @@ def run(chk):
                       ["TLS_ECDHE_PSK_WITH_AES_128_CBC_SHA256", "TLS_PSK_WITH_AES_128_CCM_8", "TLS_PSK_WITH_CHACHA20_POLY1305_SHA256",
                        "TLS_PSK_WITH_AES_128_CBC_SHA256"]):
                 extra.append(dict(c, suite=s))
+    # "(and server name)": the same table for an honest client whose configured server name is an IP address literal (the
+    # name is not sent as SNI then, but the certificate still has to match it: the lab server's certificate carries both
+    # addresses as IP SANs, the wrong-name certificate none)
+    for c in cases:
+        if c["honest"] == "c" and c["verifyChain"] and c["auth"] == "cert" and c["cred"] in ("good", "wrongName", "otherCA") and c["dev"] == "none":
+            for nk in ("ip4", "ip6"):
+                extra.append(dict(c, nameKind=nk))
     # rsa rogue keys only make sense for the control and chain-level deviations
     allc = cases + [e for e in extra if not (e.get("keyType") == "rsa" and e["cred"] != "good")]
     binary = vlib.build("root")
